@@ -578,6 +578,16 @@ func writeEvidence(cr *checkRun, tier string, seed int, total, discharged, viola
 	assumptions := append([]string{}, cr.assumes...)
 	assumptions = append(assumptions, "machine integers are modelled exactly (mathematical Int with explicit wrap-around); stream offsets assumed < 2^62")
 	assumptions = append(assumptions, "frames: callers havoc exactly what a callee's `modifies` names; that a callee body changes nothing else is not proved in general (the experimental obligation GCV_FRAME=1 is too noisy through unknown callees and re-established reader invariants) — guarded by the rule that no success return may be unreachable under the contracts in force, and by a lint over the contract files (DESIGN.md §10)")
+	assumptions = append(assumptions, "generated families error-propagation (errprop[..]) and option-forwarding (optfwd[..]) are opt-in per member: only members that held when the expectation list was written are obligations of this check; the others are code that handles an error, or changes its options, on purpose")
+	usesCmd := false
+	for _, u := range cr.spec.Units {
+		if u.Mod == "cmd" {
+			usesCmd = true
+		}
+	}
+	if usesCmd {
+		assumptions = append(assumptions, "units of module cmd are verified against github.com/ipld/go-car/v2 v2.14.2 from the module cache (cmd/go.mod has no replace directive): every v2 callee is an uncontracted external call there (results arbitrary)")
+	}
 	assumptions = append(assumptions, siteAssumes...)
 	assumptions = append(assumptions, unk...)
 	for _, n := range cr.spec.Notes {
